@@ -17,6 +17,8 @@ def configs(tier):
         dict(label='3rows default-step P1', n_rows=3, sensors=[(P, 1, 2)], default_step=True),
         dict(label='3rows P1 B1 2D models +increments', n_rows=3, sensors=[(P, 1, 2), (BV, 1, 3)],
              with_altitude=False, model_states=(3, 3), with_increments=True),
+        dict(label='4rows P1 V1, time+time_step replaced by ANY value >= both operands (rounding-robustness; step bound not asserted)', n_rows=4,
+             sensors=[(P, 1, 2), (V, 1, 2)], havoc_add=True, sample_mod=0),
     ]
     if tier == 'thorough':
         c += [
@@ -26,7 +28,7 @@ def configs(tier):
                  with_increments=True),
             dict(label='3rows P4', n_rows=3, sensors=[(P, 4, 2)]),
             dict(label='6rows P1 V1', n_rows=6, sensors=[(P, 1, 2), (V, 1, 2)]),
-            dict(label='4rows P1 V1 rounded', n_rows=4, sensors=[(P, 1, 2), (V, 1, 2)], rounded=True),
+            dict(label='5rows P2 V1, time+time_step arbitrary', n_rows=5, sensors=[(P, 2, 2), (V, 1, 2)], havoc_add=True, sample_mod=0),
         ]
     return c
 
